@@ -78,9 +78,18 @@ def _fn_nodes(fn):
         yield n, ins
         if isinstance(n, (ast.FunctionDef, ast.AsyncFunctionDef, ast.ClassDef, ast.Lambda)):
             continue
-        sub = ins and not isinstance(n, (ast.ListComp, ast.SetComp, ast.DictComp, ast.GeneratorExp))
+        if isinstance(n, (ast.ListComp, ast.SetComp, ast.DictComp, ast.GeneratorExp)):
+            # the first iterable is evaluated at once, in the enclosing scope; everything else belongs to the comprehension
+            first = n.generators[0].iter
+            for c in reversed(list(ast.iter_child_nodes(n))):
+                if isinstance(c, ast.comprehension):
+                    for cc in reversed(list(ast.iter_child_nodes(c))):
+                        stack.append((cc, ins and cc is first))
+                else:
+                    stack.append((c, False))
+            continue
         for c in reversed(list(ast.iter_child_nodes(n))):
-            stack.append((c, sub))
+            stack.append((c, ins))
 
 
 def _names_captured(fn):
